@@ -40,7 +40,9 @@ def classify(exprs, p):
     if not p.keys:
         return None
     vals = list(p.keys.values())
-    if p.mutator == 'ReplaceByVariable':
+    if p.mutator in ('ReplaceByVariable', 'IntroduceFreshVariable'):
+        # a term (or variable) is replaced by a declared variable: the
+        # inverse of what the substituting mutators do
         if all(r is not None and not isinstance(r, tuple) and r.is_leaf()
                and not smtlib.is_defined_fun(r) for r in vals):
             return 'rbv-inverse-of-substitution'
@@ -155,10 +157,11 @@ def run_unit(unit):
 def plan(tier, seed=0):
     units = []
     depth = 3 if tier == 'thorough' else 2
-    cap = 2500 if tier == 'thorough' else 500
+    cap = 1200 if tier == 'thorough' else 500
     for name, text in seeds.seeds(tier, seed):
         generated = '-gen' in name or '-not' in name
-        units.append((name, text, 'depth', 'inc', depth, cap * 4))
+        units.append((name, text, 'depth', 'inc', depth,
+                      cap * (2 if tier == 'thorough' else 4)))
         if tier == 'thorough' or not generated or name.endswith('0'):
             units.append((name, text, 'closure', 'inc', None, cap))
         if tier == 'thorough' or name.endswith('0') or '-' not in name:
